@@ -16,16 +16,19 @@
        the same simulation times, with equal inputs (as dictionaries) -- callbacks included; the
        table-driven devices of the harness are such a family ([C09_inline_transparent_table]).
        [C09_inline_transparent_master] states the same for the real-time master model at speed 1
-       ([simulate_full], the model every run of the real schedulers is compared with).
+       ([simulate_full], the model every run of the real schedulers is compared with);
+       [C09_inline_transparent_script] adds interrupts of the devices outside the system between
+       ticks; [C09_nested_is_every_flat_schedule] composes it with C08: the nested model computes
+       what every schedule (answer order) of the flat simulation gives every device.
    PARTIAL: (3) is about runs without interrupts, at speed 1 where real time is involved; nestings
    deeper than one level, several system simulations, wires straight from an external to an exposed
    port and interrupts are decided per pair of runs of the real schedulers (codes 71/72) and per run
    by the oracles shared with C03/C06/C12 -- [check_flat_pair] also checks that the harness's flat
    configuration IS the Coq flattening (code 73) and, inside the scope of (3), that [inline] is
    that flattening (code 74).  Property theorems only. *)
-From TV Require Import Base Model.Wiring Model.Ticker Model.Component Model.Sim Model.SimTime Model.Inline
+From TV Require Import Base Model.Wiring Model.Ticker Model.Component Model.Sim Model.SimTime Model.Inline Model.NSim
   Oracle.SimCheck Oracle.SimOracle
-  Proofs.SimP Proofs.FlattenP Proofs.EqvP Proofs.InlineP Proofs.InlineLoopP Proofs.InlineScopeP Proofs.SimTimeP.
+  Proofs.SimP Proofs.FlattenP Proofs.EqvP Proofs.InlineP Proofs.InlineLoopP Proofs.InlineScopeP Proofs.SimTimeP Proofs.InlineLatestP Proofs.ScheduleP Proofs.SimTraceP.
 Open Scope Z_scope.
 
 Theorem C09_flat_devices : forall cfg fuel lv, flat_order fuel cfg lv = devices_below cfg fuel lv.
@@ -121,6 +124,45 @@ Proof.
   intros cfg c lvc pre inn post tab f n initial t_end Hs Hp.
   exact (C09_inline_transparent_master cfg c lvc pre inn post (table_dev tab) f n initial t_end Hs
            (table_dev_nd tab) (table_dev_ext tab) (table_dev_well tab Hp)).
+Qed.
+
+(* ... with interrupts of the devices outside the system at any points between the ticks
+   ([sim_script]: the whole-simulation model run on a script of ticks and interrupts) *)
+Theorem C09_inline_transparent_script : forall cfg c lvc pre inn post (devf : devfun) f initial script,
+  shape_of cfg = Some (c, lvc, pre, inn, post) ->
+  (forall d k t i, NoDup (keys (fst (devf d k t i)))) ->
+  (forall d k t i i', NoDup (keys i) -> NoDup (keys i') -> eqv i i' -> devf d k t i = devf d k t i') ->
+  (forall y w, In (IStim y w) script -> In y (pre ++ post)) ->
+  obs_rel (snd (sim_script_from_start cfg devf (S f) initial script))
+          (snd (sim_script_from_start (inline cfg c lvc) devf (S f) initial script)).
+Proof.
+  intros cfg c lvc pre inn post devf f initial script Hs Hnd Hext Hok.
+  pose proof (script_run_inline cfg c lvc pre inn post (shape_of_sound _ _ _ _ _ _ Hs) devf Hnd Hext f initial script Hok) as H.
+  destruct (sim_script_from_start cfg devf (S f) initial script) as [sN obN].
+  destruct (sim_script_from_start (inline cfg c lvc) devf (S f) initial script) as [sF obF]. apply H.
+Qed.
+
+(* composed with C08: what the NESTED model computes is what EVERY schedule of the FLAT (inlined)
+   simulation gives every device -- any order in which the components of the flat simulation answer,
+   tick after tick *)
+Theorem C09_nested_is_every_flat_schedule : forall cfg c lvc pre inn post (devf : devfun) f initial script sA obA,
+  shape_of cfg = Some (c, lvc, pre, inn, post) ->
+  flat_wfb (level_of (inline cfg c lvc) top) = true ->
+  (forall d k t i, NoDup (keys (fst (devf d k t i)))) ->
+  (forall d k t i i', NoDup (keys i) -> NoDup (keys i') -> eqv i i' -> devf d k t i = devf d k t i') ->
+  (forall y w, In (IStim y w) script -> In y (pre ++ post)) ->
+  nrun (l_conns (level_of (inline cfg c lvc) top)) (map fst (l_order (level_of (inline cfg c lvc) top))) devf initial script sA obA ->
+  forall d, obs_rel (dev_obs d (snd (sim_script_from_start cfg devf (S f) initial script))) (dev_obs d obA).
+Proof.
+  intros cfg c lvc pre inn post devf f initial script sA obA Hs Hwf Hnd Hext Hok HA d.
+  pose proof (C09_inline_transparent_script cfg c lvc pre inn post devf f initial script Hs Hnd Hext Hok) as H1.
+  assert (Hok2 : forall y w, In (IStim y w) script -> In y (map fst (l_order (level_of (inline cfg c lvc) top)))).
+  { intros y w Hi. specialize (Hok y w Hi). rewrite (inline_top_order _ _ _ _ _ _ (shape_of_sound _ _ _ _ _ _ Hs)), !map_app.
+    unfold dv. rewrite !map_map. cbn [fst]. rewrite !map_id. apply in_app_iff in Hok. apply in_app_iff.
+    destruct Hok as [H|H]; [left; exact H | right; apply in_app_iff; right; exact H]. }
+  pose proof (nrun_is_sim (inline cfg c lvc) devf (S f) Hnd Hext (flat_wfb_sound _ Hwf) initial script sA obA Hok2 HA) as H2.
+  destruct (sim_script_from_start (inline cfg c lvc) devf (S f) initial script) as [sF obF]. destruct H2 as [_ H2]. cbn [snd] in H1.
+  eapply obs_rel_trans; [apply obs_rel_dev_obs; exact H1 | apply obs_rel_sym; apply H2].
 Qed.
 
 (* the premises hold somewhere and the conclusion is not empty: two devices around a system of two
